@@ -61,6 +61,19 @@ def runCounts : List Ev → Nat × Bool → Option (Nat × Bool)
     if n > 0 then runCounts evs (n - 1, gm) else if gm then runCounts evs (0, gm) else none
   | .ret :: evs, (n, gm) => runCounts evs (n + 1, gm)
 
+/-- `BondContainer::clear` = the `Reset` of a pooled container (body shape-checked against the source by the
+extractor): unmap every key, clear `keys`, zero `total_weight` — unconditionally.  `idx` is `Into<usize>`. -/
+def bcClear {F64 K : Type} (zero : F64) (idx : K → Nat) (bc : BondContainer F64 K) : BondContainer F64 K :=
+  { map := bc.keys.foldl (fun m k => m.set (idx k.1) none) bc.map, keys := [], total_weight := zero }
+
+/-- observably `Default`: no keys, weight exactly zero, nothing mapped (`verif_is_clean`) -/
+def bcClean {F64 K : Type} (zero : F64) (bc : BondContainer F64 K) : Prop :=
+  bc.keys = [] ∧ bc.total_weight = zero ∧ ∀ i v, bc.map[i]? ≠ some (some v)
+
+/-- the container invariant `clear` relies on: only positions of present keys are mapped -/
+def bcMapInv {F64 K : Type} (idx : K → Nat) (bc : BondContainer F64 K) : Prop :=
+  ∀ i v, bc.map[i]? = some (some v) → ∃ k ∈ bc.keys, idx k.1 = i
+
 end Pool
 
 /-! ## Parallel sections as task lists -/
